@@ -173,6 +173,21 @@ class _Canon(ast.NodeTransformer):
             ast.fix_missing_locations(x)
         return out
 
+    # -- numpy / operator comparison functions are the comparison operators; bool(<comparison>) is the comparison
+    _CMP_FUNCS = {"less": ast.Lt, "greater": ast.Gt, "less_equal": ast.LtE, "greater_equal": ast.GtE, "equal": ast.Eq, "not_equal": ast.NotEq,
+                  "lt": ast.Lt, "gt": ast.Gt, "le": ast.LtE, "ge": ast.GtE, "eq": ast.Eq, "ne": ast.NotEq}
+
+    def visit_Call(self, node: ast.Call):  # noqa: N802
+        self.generic_visit(node)
+        f = node.func
+        if isinstance(f, ast.Attribute) and isinstance(f.value, ast.Name) and not node.keywords and len(node.args) == 2 and not any(isinstance(a, ast.Starred) for a in node.args):
+            if (f.value.id in ("np", "numpy") and f.attr in ("less", "greater", "less_equal", "greater_equal", "equal", "not_equal")) or \
+                    (f.value.id == "operator" and f.attr in ("lt", "gt", "le", "ge", "eq", "ne")):
+                return ast.copy_location(ast.Compare(left=node.args[0], ops=[self._CMP_FUNCS[f.attr]()], comparators=[node.args[1]]), node)
+        if isinstance(f, ast.Name) and f.id == "bool" and len(node.args) == 1 and not node.keywords and isinstance(node.args[0], ast.Compare):
+            return node.args[0]
+        return node
+
     def visit_If(self, node: ast.If):  # noqa: N802
         self.generic_visit(node)
         pre = self._hoist_walrus(node, "test")
